@@ -204,6 +204,58 @@ fn run_case(env: &Env, b: &Builtin, recv: &V, args: &[&Arg], names: &[String], o
         );
     }
     acc.case(asserted, if out1.is_err() && !out0.is_err() { "extra-kwarg-refused" } else { "extra-kwarg-ignored" });
+
+    // the same call in another spelling: receiver and arguments written as LITERALS wherever the
+    // language has one (constants take another route through the compiler than variables) and
+    // the keyword arguments in REVERSE order - the answer must be the same
+    let lit_recv = if b.kind != BKind::Function { recv.literal().map(|l| format!("({l})")) } else { None };
+    let mut kws: Vec<String> = vec![];
+    let mut any_literal = lit_recv.is_some();
+    for (i, (kw, a)) in b.kws.iter().zip(args).enumerate() {
+        if let Some(x) = &a.v {
+            match x.literal() {
+                Some(l) => {
+                    any_literal = true;
+                    kws.push(format!("{}={l}", kw.name));
+                }
+                None => kws.push(format!("{}=a{i}", kw.name)),
+            }
+        }
+    }
+    if !any_literal && kws.len() < 2 {
+        return;
+    }
+    kws.reverse();
+    let call = if kws.is_empty() && b.kind != BKind::Function { b.name.to_string() } else { format!("{}({})", b.name, kws.join(", ")) };
+    let rv = lit_recv.as_deref().unwrap_or("v");
+    let src2 = match b.kind {
+        BKind::Filter => format!("{{{{ {rv} | {call} }}}}"),
+        BKind::Test => format!("{{{{ {rv} is {call} }}}}"),
+        BKind::Function => format!("{{{{ {call} }}}}"),
+    };
+    let out2 = engine::render_str(env.tera, &src2, &ctx, false);
+    match &out2 {
+        Out::Panic(m) => acc.violation(format!("panic:{}", b.name), format!("the built-in panicked: {m}"), || case_json(b, &src2, &binds)),
+        // a literal the grammar refuses (three array dimensions, an exponent) is not this check's business
+        Out::Err(kind, _) if kind == "SyntaxError" => {
+            acc.case(false, "literal-spelling:not-parsable");
+            return;
+        }
+        _ => {
+            if oracle::coarse(b.name, &out2) != oracle::coarse(b.name, &out0) {
+                acc.violation(
+                    format!("spelling-changes-result:{}", b.name),
+                    format!("with variables in declared order {}, with literals in reverse order {}", oracle::coarse(b.name, &out0), oracle::coarse(b.name, &out2)),
+                    || {
+                        let mut j = case_json(b, &src2, &binds);
+                        j["variable_spelling"] = json!(src0);
+                        j
+                    },
+                );
+            }
+        }
+    }
+    acc.case(asserted, "literal-spelling:same-answer");
 }
 
 fn totality_class(o: &Out) -> &'static str {
